@@ -375,7 +375,9 @@ class ProcessRunner(Runner, ABC):
         # records of the tasks that have just completed.
         self._consume_log_queue()
         for future in done:
-            task = self.future_to_task[future]
+            # Forget each future as it is handled, so that it will not
+            # be returned again if this iteration is abandoned.
+            task = self.future_to_task.pop(future)
             if future.cancelled:
                 continue
             try:
@@ -387,11 +389,6 @@ class ProcessRunner(Runner, ABC):
             else:
                 self.results_map[task] = task_result
                 yield (task, task_result.meta)
-        self.future_to_task = {
-            future: self.future_to_task[future]
-            for future in self.future_to_task
-            if future not in done
-        }
 
     def cancel(self) -> None:
         self.executor.cancel()
